@@ -7,7 +7,7 @@
 
 use rand::SeedableRng;
 use rand::rngs::StdRng;
-use redb::{ReadableDatabase, ReadableTable, TableDefinition};
+use redb::{ReadableDatabase, ReadableTable, ReadableTableMetadata, TableDefinition};
 use redb_verif_harness::backend::{FaultMode, Store};
 use redb_verif_harness::exec::{Config, Exec, builder, default_vlens};
 use redb_verif_harness::r#gen::{Gen, Profile};
@@ -194,6 +194,49 @@ fn main() {
                 failing_opens += 1;
                 scenarios += 1;
             }
+        }
+        // F. growth across many small regions, inside one transaction and across transactions, then shrinking and compaction:
+        // every new region starts partial (the file is extended to what is needed, not to a whole region)
+        for (variant, (page_size, region)) in [(512usize, 1u64 << 14), (512, 1 << 15), (1024, 1 << 15)].into_iter().enumerate() {
+            let cfg = Config { seed: seed + variant as u64, page_size, region_size: Some(region), cache_size: [1 << 20, 0, 1 << 14][variant], nkeys: 64,
+                               vlens: default_vlens(page_size), sel: None };
+            let store = Store::new();
+            store.enable_calllog();
+            let r = std::panic::catch_unwind(std::panic::AssertUnwindSafe(|| {
+                let mut db = builder(&cfg).create_with_backend(store.backend()).unwrap();
+                for round in 0..3u64 {
+                    let w = db.begin_write().unwrap();
+                    {
+                        let mut t = w.open_table(T).unwrap();
+                        for k in 0..(700 + 300 * round) {
+                            t.insert(k + 10_000 * round, vec![(k + round) as u8; page_size * 2 + 100 + (k as usize % 7) * 90].as_slice()).unwrap();
+                        }
+                    }
+                    w.commit().unwrap();
+                    let w = db.begin_write().unwrap();
+                    {
+                        let mut t = w.open_table(T).unwrap();
+                        for k in 0..(500 + 250 * round) {
+                            t.remove(k + 10_000 * round).unwrap();
+                        }
+                    }
+                    w.commit().unwrap();
+                    if round == 1 {
+                        db.compact().unwrap();
+                    }
+                }
+                let n = db.begin_read().unwrap().open_table(T).unwrap().len().unwrap();
+                drop(db);
+                n
+            }));
+            let outcome = match &r {
+                Ok(n) => format!("done, {n} entries"),
+                Err(_) => "panic".to_string(),
+            };
+            tw.write(&json!({"e": "note", "sc": "regions", "outcome": outcome, "variant": variant}));
+            store.mark_done();
+            flush_calls(&store, &mut tw, "regions", &mut calls);
+            scenarios += 1;
         }
         // C. Database dropped while a write transaction is live; readers outliving the database
         for variant in 0..6 {
